@@ -195,6 +195,82 @@ def execUpdate (onupd : List Kind) (ps : List Params) (olds : List (List Val)) :
   | .ok (curs, counts) =>
     .ok (List.zipWith (storeUpdate (onupd.zip ds)) curs olds, counts)
 
+/-! ## the primary key column of an INSERT (`_get_returning_modifiers` + the pk branch
+    of `_scan_cols` + `_append_param_insert_pk_returning / _pk_no_returning`) -/
+
+inductive PkKind where
+  | autoinc      -- Integer primary key, no default: the database generates it
+  | pydefault    -- Python scalar / callable default
+  | sqlexpr      -- SQL expression default
+  | plain        -- no generator at all: the user has to supply it
+deriving Repr, DecidableEq
+
+/-- dialect, table and statement flags read by `_get_returning_modifiers` -/
+structure PkCtx where
+  insertReturning : Bool          -- dialect.insert_returning
+  postfetchLastrowid : Bool       -- dialect.postfetch_lastrowid
+  favorReturning : Bool           -- dialect.favor_returning_over_lastrowid
+  execManyReturning : Bool        -- dialect.insert_executemany_returning
+  nullPkAutoincrements : Bool     -- dialect.insert_null_pk_still_autoincrements
+  tableImplicitReturning : Bool   -- Table(implicit_returning=...)
+  inline : Bool                   -- stmt.inline()
+  returnDefaults : Bool           -- stmt.return_defaults()
+  returning : Bool                -- stmt.returning(...)
+  executemany : Bool              -- compiler.for_executemany
+deriving Repr, DecidableEq
+
+def needPks (c : PkCtx) : Bool :=
+  !c.inline && (!c.executemany || (c.execManyReturning && c.returnDefaults)) && !c.returning
+
+def postfetchLastrowid0 (k : PkKind) (c : PkCtx) : Bool :=
+  needPks c && c.postfetchLastrowid && (k == .autoinc)
+
+def implicitReturning (k : PkKind) (c : PkCtx) : Bool :=
+  needPks c && c.insertReturning && c.tableImplicitReturning &&
+    ((!postfetchLastrowid0 k c || c.favorReturning) || c.returnDefaults)
+
+/-- what happens to the primary key column -/
+structure PkPlan where
+  inStatement : Bool    -- the column appears in the INSERT column list
+  bound : Bool          -- ... with the user's bind
+  prefetch : Bool       -- ... with a bind filled by a pre-executed default (insert_prefetch)
+  inlineSql : Bool      -- ... with the SQL expression inline
+  inReturning : Bool    -- the column is in compiler.implicit_returning
+  lastrowid : Bool      -- compiler.postfetch_lastrowid
+deriving Repr, DecidableEq
+
+/-- `viaValues`: the key was given as a non-NULL value in `.values()` (a BindParameter, for
+    which `_append_param_parameter` asks for the generated key only when the value is None) -/
+def pkPlan (k : PkKind) (supplied : Bool) (c : PkCtx) (viaValues : Bool := false) : PkPlan :=
+  let ir := implicitReturning k c
+  let plr := postfetchLastrowid0 k c && !ir
+  if supplied then
+    -- _append_param_parameter: a literal value for the autoincrement column still asks
+    -- for the generated key where NULL would autoincrement
+    let auto := c.nullPkAutoincrements && (k == .autoinc) && !viaValues
+    { inStatement := true, bound := true, prefetch := false, inlineSql := false,
+      inReturning := auto && !plr && ir, lastrowid := auto && plr }
+  else if needPks c then
+    if ir then
+      match k with
+      | .pydefault => ⟨true, false, true, false, false, false⟩
+      | .sqlexpr => ⟨true, false, false, true, true, false⟩
+      | .autoinc => ⟨false, false, false, false, true, false⟩
+      | .plain => ⟨false, false, false, false, false, false⟩
+    else
+      match k with
+      | .pydefault | .sqlexpr => ⟨true, false, true, false, false, plr⟩   -- pre-executed
+      | .autoinc => ⟨false, false, false, false, false, c.postfetchLastrowid⟩
+      | .plain => ⟨false, false, false, false, false, false⟩
+  else
+    match k with
+    | .pydefault => ⟨true, false, true, false, false, false⟩
+    | .sqlexpr => ⟨true, false, false, true, c.returnDefaults && c.executemany && false, false⟩
+    | _ => ⟨false, false, false, false, false, false⟩
+
+/-- is the generated key available to `inserted_primary_key` after the INSERT? -/
+def pkRetrievable (p : PkPlan) : Bool := p.bound || p.prefetch || p.inReturning || p.lastrowid
+
 /-! ## the specification: what the property asks for, row by row -/
 
 /-- value the default of kind `k` yields for row number `i` of an execution in which
